@@ -402,6 +402,13 @@ var c01Kinds = []resKind{
 		why:     "the hidden temp file of the cut/poster/ndown writer exists from here on",
 	},
 	{
+		name:       "api-attachment-reservations",
+		acquire:    []string{"pkg/api.reserveAttachmentOutputs"},
+		dispose:    []string{"pkg/api.releaseAttachmentOutputReservations"},
+		noFailEdge: true,
+		why:        "O_EXCL reservation files for the extraction targets exist from here on, also when reserving a later target failed (the partial list is handed back with the error)",
+	},
+	{
 		name:             "api-multifill-intermediates",
 		acquire:          []string{"pkg/api.multiFillJSONForm", "pkg/api.multiFillCSVRecord"},
 		dispose:          []string{"pkg/api.rollbackMultiFillOutputs"},
@@ -560,6 +567,8 @@ type pairCtx struct {
 	triv        *triviality
 	rule        string // rule id prefix e.g. "C01"
 	r1          string // rule id for the PAIR obligations (default rule+".R1")
+	r2          string // rule id for the FLAG obligations (default rule+".R2")
+	flagOnly    bool   // only the FLAG discipline of deferred publishers is checked (C02.R5)
 	noPanicRule bool   // only leaks on normal paths are reported (C06: staging directories)
 }
 
@@ -650,7 +659,7 @@ func (pc *pairCtx) runPair(kinds []resKind) {
 				pc.checkSite(fn, call, ref, n, k)
 			})
 		}
-		if sites == 0 {
+		if sites == 0 && !pc.flagOnly {
 			r.Bad(pc.rule+".R1", k.name, "anchor", "", "UNRESOLVED-ANCHOR: no call site of "+strings.Join(k.acquire, " | ")+" found")
 		}
 	}
@@ -720,6 +729,12 @@ func (pc *pairCtx) checkSite(fn *ssa.Function, a *ssa.Call, ref string, ord int,
 			}
 		}
 	})
+	if pc.flagOnly {
+		for di, d := range deferPublishers {
+			pc.checkFlag(fn, a, d, k, fmt.Sprintf("%s defer#%d", construct, di+1))
+		}
+		return
+	}
 	genE := map[Edge][]string{}
 	if !k.noFailEdge {
 		for e := range failEdges {
@@ -1064,10 +1079,17 @@ func returnsValueFrom(ret *ssa.Return, a ssa.Value) bool {
 }
 
 // checkFlag: the publishing call(s) inside deferred call d must be keyed on a completion flag.
+func (pc *pairCtx) ruleR2() string {
+	if pc.r2 != "" {
+		return pc.r2
+	}
+	return pc.rule + ".R2"
+}
+
 func (pc *pairCtx) checkFlag(fn *ssa.Function, a *ssa.Call, d *ssa.Defer, k *resKind, construct string) {
 	p, r := pc.c.P, pc.c.R
 	fid := FuncID(fn)
-	rule := pc.rule + ".R2"
+	rule := pc.ruleR2()
 	mc, ok := d.Call.Value.(*ssa.MakeClosure)
 	if !ok {
 		r.Bad(rule, fid, construct, p.Pos(d.Pos()), "a publishing call is deferred directly: it runs on every exit including a panic unwinding the function, so a partial output can be published under its final name")
@@ -1237,6 +1259,79 @@ func runC01(c *Ctx) {
 	pc := &pairCtx{c: c, triv: &triviality{cg: c.CG(), memo: map[*ssa.Function]int{}}, rule: "C01"}
 	pc.runPair(c01Kinds)
 	runFSWMC(c, "C01.R3", nil)
+	checkAccumulatorsHandedBack(c)
+}
+
+// c01Accumulators: functions that create several files in a loop and hand them to the caller as a slice — also on failure, so
+// that the caller can remove what was created so far (the caller side is the PAIR kind api-attachment-reservations).
+var c01Accumulators = map[string]string{
+	"pkg/api.reserveAttachmentOutputs": "os.OpenFile",
+}
+
+// checkAccumulatorsHandedBack (C01.R1): every return reachable after a creation returns the accumulated slice, not nil.
+func checkAccumulatorsHandedBack(c *Ctx) {
+	p, r := c.P, c.R
+	for fid, create := range c01Accumulators {
+		fn := p.Func(fid)
+		if fn == nil {
+			r.Bad("C01.R1", fid, "accumulator", "", "UNRESOLVED-ANCHOR")
+			continue
+		}
+		var createBlocks []*ssa.BasicBlock
+		eachInstr(fn, func(b *ssa.BasicBlock, _ int, i ssa.Instruction) {
+			if _, ref := callRef(i); ref == create {
+				createBlocks = append(createBlocks, b)
+			}
+		})
+		if len(createBlocks) == 0 {
+			r.Bad("C01.R1", fid, "accumulator", p.Pos(fn.Pos()), "UNRESOLVED-ANCHOR: no call of "+create)
+			continue
+		}
+		after := map[*ssa.BasicBlock]bool{}
+		for _, b := range createBlocks {
+			for x := range reachableBlocks(b) {
+				after[x] = true
+			}
+		}
+		var derivesSlice func(v ssa.Value, d int) bool
+		derivesSlice = func(v ssa.Value, d int) bool {
+			if d > 8 {
+				return false
+			}
+			switch x := v.(type) {
+			case *ssa.MakeSlice:
+				return true
+			case *ssa.Phi:
+				for _, e := range x.Edges {
+					if derivesSlice(e, d+1) {
+						return true
+					}
+				}
+			case *ssa.Call:
+				if b, ok := x.Call.Value.(*ssa.Builtin); ok && b.Name() == "append" {
+					return derivesSlice(x.Call.Args[0], d+1)
+				}
+			case *ssa.Slice:
+				return derivesSlice(x.X, d+1)
+			case *ssa.ChangeType:
+				return derivesSlice(x.X, d+1)
+			}
+			return false
+		}
+		n := 0
+		for _, ret := range returnsOf(fn) {
+			if !after[ret.Block()] || len(ret.Results) == 0 {
+				continue
+			}
+			n++
+			pos := posOrFn(p, ret, fn)
+			if derivesSlice(ret.Results[0], 0) {
+				r.OK("C01.R1", fid, fmt.Sprintf("accumulator handed back@return#%d", n), pos, "the slice of files created so far is returned (also with an error), so the caller can remove them", true)
+			} else {
+				r.Bad("C01.R1", fid, fmt.Sprintf("accumulator handed back@return#%d", n), pos, "this return is reachable after files were created but does not hand the accumulated list back to the caller: the caller cannot remove the files created so far and they stay behind")
+			}
+		}
+	}
 }
 
 // runFSWMC: closed world of destructive primitives. onlyCats restricts to categories (nil = all).
